@@ -168,9 +168,11 @@ def check_planar(ctx, R="C04.planar"):
             inner = [t for t, p in lib.guard_tests(r, fn) if p and isinstance(t, ast.Compare)]
             good = False
             for t in inner:
-                if len(t.ops) == 1 and isinstance(t.ops[0], (ast.Gt, ast.GtE)) and isinstance(t.left, ast.Call) and dotted(t.left.func) == "abs":
-                    dz = lin(t.left.args[0])
-                    rhs = lin(t.comparators[0])
+                # |dz| > bound, written in either direction
+                big, small = (t.left, t.comparators[0]) if len(t.ops) == 1 and isinstance(t.ops[0], (ast.Gt, ast.GtE)) else (t.comparators[0], t.left) if len(t.ops) == 1 and isinstance(t.ops[0], (ast.Lt, ast.LtE)) else (None, None)
+                if big is not None and isinstance(big, ast.Call) and dotted(big.func) == "abs":
+                    dz = lin(big.args[0])
+                    rhs = lin(small)
                     if (equal(dz, lin_src(f"self.position.z - {other}.position.z")) or equal(dz, lin_src(f"{other}.position.z - self.position.z"))) and equal(
                         rhs, lin_src(f"(self.height + {other}.height) / 2")
                     ):
@@ -187,10 +189,13 @@ def check_planar(ctx, R="C04.planar"):
                 okz = False
                 for t in tests:
                     for c in ast.walk(t):
-                        if isinstance(c, ast.Compare) and len(c.ops) == 1 and isinstance(c.ops[0], (ast.LtE, ast.Lt)) and isinstance(c.left, ast.Call) and dotted(c.left.func) == "abs":
-                            dz = lin(c.left.args[0])
+                        if not (isinstance(c, ast.Compare) and len(c.ops) == 1):
+                            continue
+                        small, big = (c.left, c.comparators[0]) if isinstance(c.ops[0], (ast.LtE, ast.Lt)) else (c.comparators[0], c.left) if isinstance(c.ops[0], (ast.GtE, ast.Gt)) else (None, None)
+                        if small is not None and isinstance(small, ast.Call) and dotted(small.func) == "abs":
+                            dz = lin(small.args[0])
                             if (equal(dz, lin_src(f"self.position.z - {other}.z")) or equal(dz, lin_src(f"{other}.z - self.position.z"))) and equal(
-                                lin(c.comparators[0]), lin_src("self.height / 2")
+                                lin(big), lin_src("self.height / 2")
                             ):
                                 okz = True
                 if okz:
@@ -209,7 +214,7 @@ def check_planar(ctx, R="C04.planar"):
     t = unparse(f)
     need = ["isinstance(self.shape, BoxShape)", "self.orientation.pitch == 0", "self.orientation.roll == 0"]
     rets = [r for r in lib.returns_of(f) if r.value is not None]
-    if len(rets) == 1 and isinstance(rets[0].value, ast.BoolOp) and isinstance(rets[0].value.op, ast.And) and all(any(unparse(v) == x for v in rets[0].value.values) for x in need):
+    if len(rets) == 1 and isinstance(rets[0].value, ast.BoolOp) and isinstance(rets[0].value.op, ast.And) and all(any(lib.ctext(v) == lib.ctext_of(x) for v in rets[0].value.values) for x in need):
         ctx.ok(R, f, "_isPlanarBox = box shape and zero pitch and zero roll")
     else:
         ctx.finding(R, f, "_isPlanarBox definition", "_isPlanarBox no longer requires BoxShape and pitch == 0 and roll == 0 (conjunction)")
